@@ -60,9 +60,12 @@ class MCPEnv(RL4COEnvBase):
         # Update set selection status
         chosen = td["chosen"].clone()  # (batch_size, n_sets)
         chosen[torch.arange(batch_size).to(td.device), selected] = True
+        n_to_choose = td["n_sets_to_choose"].view(-1)
+        finished = td["i"] >= n_to_choose  # already done before this step: padding is a no-op
+        chosen = torch.where(finished.unsqueeze(-1), td["chosen"], chosen)
 
         # We are done if we choose enough sets
-        done = td["i"] >= (td["n_sets_to_choose"] - 1)
+        done = td["i"] >= (n_to_choose - 1)
 
         # The reward is calculated outside via get_reward for efficiency, so we set it to -inf here
         reward = torch.ones_like(done) * float("-inf")
@@ -92,7 +95,7 @@ class MCPEnv(RL4COEnvBase):
         remaining_items = 1.0 - covered_items  # (batch_size, n_items)
 
         # We cannot choose the already-chosen sets
-        action_mask = ~chosen
+        action_mask = ~chosen | done.unsqueeze(-1)
 
         td.update(
             {
